@@ -68,6 +68,7 @@ pub fn read_checked_cfg(bytes: &[u8], orig: &BTreeMap<String, Vec<u8>>, order: &
                 }
             };
             let mut pos = 0usize;
+            let mut file_error = false;
             let mut buf = vec![0u8; rb];
             loop {
                 match f.data.read(&mut buf) {
@@ -80,14 +81,25 @@ pub fn read_checked_cfg(bytes: &[u8], orig: &BTreeMap<String, Vec<u8>>, order: &
                     }
                     Err(e) => {
                         had_error.get_or_insert(format!("read: {e:?}"));
+                        file_error = true;
+                        // a caller may call read again on the same handle after an error: whatever it is then given
+                        // is judged like any other byte (same position: only successful reads advance it)
+                        for (j, sz) in [rb, 1, 4096].into_iter().enumerate() {
+                            let mut b2 = vec![0u8; sz];
+                            if let Ok(k) = f.data.read(&mut b2) {
+                                if k > 0 && (pos + k > o.len() || b2[..k] != o[pos..pos + k]) {
+                                    return Outcome::Wrong(format!("read #{} of {} after an error, at offset {pos}, returned {k} byte(s) that are not the original bytes at that position", j + 2, prog::short_name(name)));
+                                }
+                                pos += k;
+                            }
+                        }
                         break;
                     }
                 }
             }
-            if had_error.is_none() && pos != o.len() {
-                // short file without any error: data silently missing is not "wrong bytes", but the
-                // unaltered archive must be complete; record as error-like outcome
-                had_error.get_or_insert(format!("{} ended early at {pos} of {}", prog::short_name(name), o.len()));
+            if !file_error && pos != o.len() {
+                // the file ends early although no call reported an error: neither "the original data" nor "an error"
+                return Outcome::Wrong(format!("{} ends at {pos} of {} bytes without any error", prog::short_name(name), o.len()));
             }
         }
         match had_error {
@@ -371,8 +383,9 @@ pub fn run(started: Instant) -> i32 {
         let orders: Vec<&[usize; 3]> = if m.all_orders { ORDERS.iter().collect() } else { vec![&ORDERS[m.idx % 6]] };
         for (oi, order) in orders.into_iter().enumerate() {
             let rb = if m.idx % 2 == 0 { 7 } else { 4096 };
-            // reader configuration: default, or with the fail-safe-only "unauthenticated" option set
-            let failsafe_opt = (m.idx + oi) % 2 == 1;
+            // reader configuration: default, or with the fail-safe-only "unauthenticated" option set (not tied
+            // to the read size: bit 1 of a hash of the mutant)
+            let failsafe_opt = (fnv(m.desc.as_bytes()) as usize / 2 + oi) % 2 == 1;
             let o = read_checked_cfg(&m.bytes, orig, order, rb, failsafe_opt, &mut rep.transitions);
             rep.evaluations += 1;
             let h = fnv(format!("{}{}{:?}{}", m.base, m.desc, order, failsafe_opt).as_bytes());
@@ -394,6 +407,10 @@ pub fn run(started: Instant) -> i32 {
                     rep.violate(Violation { sig: json!({"kind": "wrong_data_or_name", "mutation": m.kind}), detail: format!("{}: {d}", m.desc), replay, weight: m.idx as u64 });
                 }
                 (Outcome::Intact, "identity") => {}
+                (Outcome::Intact, "bitflip") if (m.idx - 1) / 8 >= refstream::header_len(true, 1) => {
+                    // every byte after the header is ciphertext or tag: a flipped bit cannot verify
+                    rep.violate(Violation { sig: json!({"kind": "flipped_bit_after_the_header_goes_unnoticed"}), detail: format!("{}: every file reads back completely without any error", m.desc), replay, weight: m.idx as u64 });
+                }
                 (other, "identity") => {
                     rep.violate(Violation { sig: json!({"kind": "unaltered_archive_rejected"}), detail: format!("unaltered archive, read order {order:?}: {other:?}"), replay, weight: 0 });
                 }
@@ -408,7 +425,7 @@ pub fn run(started: Instant) -> i32 {
         rep,
         Meta {
             level: "fault_enumeration",
-            rule: "encrypted base archives from the real writer (3 interleaved files, >=5 chunks; encrypt and encrypt+compress); mutants: every single-bit flip of every byte, every byte set to 00/FF, every truncation, all chunk swaps/duplications/deletions/replacements (same archive, sibling archive with another key), header field edits, and the downgrade (encryption bit cleared + unencrypted body substituted; also presented to the mlar binary with a private key, which must refuse it); each opened with the real ArchiveReader and all files read in all 6 orders (chunk edits, identity) or one rotating order, 7-byte or 4096-byte reads, reader configuration alternating between the default and one with the fail-safe-only option failsafe_return_data_even_unauthenticated() set. Oracle: every Ok(n) read equals the original bytes at that position, no foreign name listed, the unaltered archive reads back completely - also for every first-file length 0..=block+chunk+tag+8 (3 files, encrypt and encrypt+compress), i.e. every alignment of the end of the inner stream. non-trivial = distinct (mutant, order) other than identity".to_string(),
+            rule: "encrypted base archives from the real writer (3 interleaved files, >=5 chunks; encrypt and encrypt+compress); mutants: every single-bit flip of every byte, every byte set to 00/FF, every truncation, all chunk swaps/duplications/deletions/replacements (same archive, sibling archive with another key), header field edits, and the downgrade (encryption bit cleared + unencrypted body substituted; also presented to the mlar binary with a private key, which must refuse it); each opened with the real ArchiveReader and all files read in all 6 orders (chunk edits, identity) or one rotating order, 7-byte or 4096-byte reads, reader configuration alternating between the default and one with the fail-safe-only option failsafe_return_data_even_unauthenticated() set. Oracle: every Ok(n) read equals the original bytes at that position (reads repeated on the same handle after an error included), no file ends early without an error, no flipped bit after the header goes unnoticed, no foreign name listed, the unaltered archive reads back completely - also for every first-file length 0..=block+chunk+tag+8 (3 files, encrypt and encrypt+compress), i.e. every alignment of the end of the inner stream. non-trivial = distinct (mutant, order) other than identity".to_string(),
             exhaustive: true,
             bounds: json!({"bases": progs.len(), "mutation_operators": ["bitflip(all bits of all bytes)", "byteset 00/FF", "truncate(all lengths)", "chunk swap/duplicate/delete/replace/sibling/last-to-front", "header zero/increment/low-order point", "downgrade: ENCRYPT bit cleared + unencrypted body (library: known finding; mlar with a key: must refuse, 4 commands x 2 forms)"], "read_orders": "all 6 permutations for chunk edits and identity; rotating single order otherwise"}),
             assumptions: vec!["scaled constants; panics are counted here but judged by C08".to_string(), "forging a tag is assumed infeasible".to_string()],
